@@ -208,6 +208,9 @@ def execute(world_mod, program, prop, trace=False):
     }
     if trace:
         out["events"] = ctx.events
+    rp = getattr(ctx, "replay_program", None)
+    if rp is not None and (viol or foreign):
+        out["replay_program"] = rp
     return out
 
 
@@ -235,6 +238,9 @@ def _read_all(fd, timeout, pid):
     return b"".join(chunks)
 
 
+_NESTED = False
+
+
 def isolated(fn, timeout=60.0):
     """call fn() in a forked child; returns its JSON-able result, or {"harness_error": ...}"""
     rfd, wfd = os.pipe()
@@ -245,11 +251,16 @@ def isolated(fn, timeout=60.0):
         code = 0
         try:
             os.close(rfd)
-            try:
-                faulthandler.enable()
-                faulthandler.dump_traceback_later(max(1.0, timeout - 1.0), exit=False)
-            except Exception:
-                pass
+            global _NESTED
+            if not _NESTED:
+                # (only in the outermost child: after fork() faulthandler's watchdog thread no longer exists, and
+                #  re-arming it would wait for that thread forever)
+                try:
+                    faulthandler.enable()
+                    faulthandler.dump_traceback_later(max(1.0, timeout - 1.0), exit=False)
+                except Exception:
+                    pass
+            _NESTED = True
             try:
                 res = fn()
             except BaseException as e:  # harness failure, reported as such
@@ -296,7 +307,7 @@ def run_index(world_mod, prop, tier, verif_seed, index, timeout=60.0, want_progr
         out["run_seed"] = seed
         out["index"] = index
         if want_program or out["violation"] or out["foreign"]:
-            out["program"] = program
+            out["program"] = out.pop("replay_program", None) or program
         return out
 
     return isolated(job, timeout=timeout)
